@@ -3,7 +3,7 @@ import importlib
 
 FAMILY = {
     "C04": "civil", "C05": "civil", "C17": "civil",
-    "C16": "posix", "C15": "fixed", "C13": "loader", "C20": "loader", "C18": "split", "C19": "names", "C12": "load", "C08": "format", "C07": "format",
+    "C16": "posix", "C15": "fixed", "C13": "loader", "C20": "loader", "C18": "split", "C19": "names", "C12": "load", "C08": "format", "C07": "format", "C09": "parse",
     "C01": "zone", "C02": "zone", "C03": "zone", "C06": "zone", "C10": "zone", "C11": "zone", "C14": "zone",
 }
 
